@@ -45,9 +45,17 @@ def pkgname(rel):
     return PKGNAME.get(rel, os.path.basename(rel))
 
 
+def native_fixup(src, rel):
+    if rel == "":
+        return src.replace("/*GOPACKET*/", "").replace("/*GOPACKETIMPORT*/", "")
+    return src.replace("/*GOPACKET*/", "gopacket.").replace("/*GOPACKETIMPORT*/", '"github.com/gopacket/gopacket"')
+
+
 def write_decl(dst_dir, rel, native):
     src = open(os.path.join(VERIF, "harness", "decl_native.go.tmpl" if native else "decl.go")).read()
     src = re.sub(r"^package \w+", "package " + pkgname(rel), src, count=1, flags=re.M)
+    if native:
+        src = native_fixup(src, rel)
     os.makedirs(os.path.join(dst_dir, rel), exist_ok=True)
     open(os.path.join(dst_dir, rel, "decl_native.go" if native else "decl.go"), "w").write(src)
 
@@ -125,6 +133,7 @@ def prepare_replay(pid, hdir, rel, work, race=False):
         units += re.findall(r"^func (verif_\w+)\(\)", open(os.path.join(bdir, f)).read(), re.M)
     src = open(os.path.join(VERIF, "harness", "decl_native.go.tmpl")).read()
     src = re.sub(r"^package \w+", "package " + pkgname(rel), src, count=1, flags=re.M)
+    src = native_fixup(src, rel)
     open(os.path.join(bdir, "decl_native.go"), "w").write(src)
     overlay[os.path.join(REPO, rel, "zz_verif_decl_native.go")] = os.path.join(bdir, "decl_native.go")
     table = "\n".join('\t"%s": %s,' % (u, u) for u in units)
